@@ -3,7 +3,8 @@
 
 Lean: Model/Snd.lean (term language, denotation, operational semantics of the sequential adaptors),
       Model/Shared.lean (acceptor for the split / ensure_started / split_tuple shared state and the
-      when_all counter), theorems in Props/C03.lean.
+      when_all counter), Model/SharedLife.lean (ownership layer: who holds a reference to the shared state,
+      reference count, freed, touch after release), theorems in Props/C03.lean and Props/C03Life.lean.
 Tie:  E0 - harness/e0/snd.cpp builds runtime pipelines from random terms on the real adaptors
            (every stage erased as unique_any_sender), driver model `snd` compares line by line;
            pool cases run schedule/continues_on/transfer_just on a real thread_pool_scheduler;
@@ -149,7 +150,10 @@ def gen_e1(rng, cid):
     strat = rng.weighted([(0, 5), (1, 3), (2, 2)])
     if kind == 'when_all':
         k = 2 + rng.below(3)
-        lines = [f'case {cid} kind=when_all n={k} seed={seed} strat={strat}',
+        # a third of the when_all cases: self-deleting when_all operation state in guarded memory (destroyed inside the
+        # downstream completion call by whichever predecessor finishes last; a later touch by any thread faults)
+        life = ' life=1' if rng.below(3) == 0 else ''
+        lines = [f'case {cid} kind=when_all n={k} seed={seed} strat={strat}{life}',
                  'thread 0: start ;']
         for t in range(k):
             ch = rng.weighted([('value', 5), ('error', 3), ('stopped', 2)])
@@ -160,6 +164,30 @@ def gen_e1(rng, cid):
     ch = rng.weighted([('value', 5), ('error', 3), ('stopped', 3)])
     arg = 1 + rng.below(9)
     ncons = 1 if kind == 'ensure_started' else (1 + rng.below(2) if kind == 'split_tuple' else 1 + rng.below(3))
+    if rng.below(3) == 0:
+        # lifetime mode: guarded shared state, the adaptor's handle destroyed up front, every consumer owns its own
+        # sender and either connects it into a self-deleting operation state or discards it unconnected; a touch of
+        # the shared state after its last owner is gone faults, and it must be destroyed exactly once
+        nsend = 1 if kind == 'ensure_started' else (2 if kind == 'split_tuple' else 1 + rng.below(4))
+        acts = [('consume' if rng.below(3) != 0 else 'discard') for _ in range(nsend)]
+        if kind != 'ensure_started' and 'consume' not in acts:
+            acts[rng.below(nsend)] = 'consume'
+        progs = [[f'complete_{ch} {arg}']]
+        for i, a in enumerate(acts):
+            if rng.below(3) == 0:
+                progs[rng.below(len(progs))].append(f'{a} {i}')     # same thread as an earlier op (program order)
+            else:
+                progs.append([f'{a} {i}'])
+        for pr in progs:
+            # within one thread the order of completing and consuming/discarding is random too
+            for j in range(len(pr) - 1, 0, -1):
+                k2 = rng.below(j + 1)
+                pr[j], pr[k2] = pr[k2], pr[j]
+        lines = [f'case {cid} kind={kind} seed={seed} strat={strat} life=1']
+        for t, pr in enumerate(progs):
+            lines.append(f'thread {t}: ' + ' ; '.join(pr) + ' ;')
+        lines.append('endcase')
+        return '\n'.join(lines)
     lines = [f'case {cid} kind={kind} seed={seed} strat={strat}', f'thread 0: complete_{ch} {arg} ;']
     for t in range(ncons):
         lines.append(f'thread {t + 1}: consume {t} ;')
@@ -189,13 +217,19 @@ def main():
     violations, known_lines = [], []
 
     # 1. proof obligations
-    ok_build, build_log = lean_build('C03')
+    # Props/C03.lean (term semantics, protocol of the shared state, when_all) and Props/C03Life.lean (ownership of
+    # the shared state: no touch after release, destroyed exactly once, pinned split_tuple witness)
+    PROPS = ['C03', 'C03Life']
+    ok_build, build_log = lean_build(PROPS)
     audit = {'obligations': 0, 'discharged': 0, 'problems': ['lake build failed'], 'theorems': [],
              'checker_cmd': f'cd {LEAN} && lake build'}
     if ok_build:
-        audit = lean_audit(PROP, [])
+        audits = [lean_audit(pf, []) for pf in PROPS]
+        audit = {'obligations': sum(a['obligations'] for a in audits), 'discharged': sum(a['discharged'] for a in audits),
+                 'problems': [x for a in audits for x in a['problems']], 'theorems': [t for a in audits for t in a['theorems']],
+                 'checker_cmd': '; '.join(a['checker_cmd'] for a in audits)}
         if tr == 'thorough':
-            for m, okc, out in leanchecker([f'PikaVerif.Props.{PROP}']):
+            for m, okc, out in leanchecker([f'PikaVerif.Props.{pf}' for pf in PROPS]):
                 if not okc:
                     audit['problems'].append(f'leanchecker {m}: {out}')
     proof_ok = ok_build and not audit['problems'] and audit['obligations'] == audit['discharged'] and audit['obligations'] > 0
@@ -309,7 +343,7 @@ def main():
                               'impl_history': r['raw'], 'model_verdict': r['verdict'],
                               'rerun_cmd': f'cd {HERE} && ./check {PROP} --replay <this file>'})
             violations.append(f'VIOLATION property={PROP} replay={p}')
-    elif ties or not proof_ok:
+    if not violations and (ties or not proof_ok):
         if not proof_ok:
             p = write_replay(PROP, f'proof-{base_seed}.json',
                              {'property': PROP, 'kind': 'proof', 'problems': audit['problems'], 'build_log': build_log[-3000:],
@@ -320,7 +354,7 @@ def main():
             k, c, r, eng = ties[0]
             p = write_replay(PROP, f'tie-{base_seed}.json',
                              {'property': PROP, 'kind': 'tie', 'engine': eng,
-                              'correspondence': 'E0: harness/e0/snd.cpp lines = Lean model Snd (exec and denotation) / E1: hook-event log of harness/e1/split.cpp accepted by Lean model Shared',
+                              'correspondence': 'E0: harness/e0/snd.cpp lines = Lean model Snd (exec and denotation) / E1: hook-event log of harness/e1/split.cpp (protocol events and every reference-count change sh.ref/sh.unref/sh.free) accepted by Lean model SharedLife over Shared',
                               'first_divergence': r['verdict'], 'case': c, 'impl_history': r['raw'],
                               'diverging_cases': len(ties), 'searched_cases': len(results) + extra_run})
             violations.append(f'VIOLATION property={PROP} replay={p} no-failing-input-found')
